@@ -4,6 +4,7 @@ package props
 import (
 	"io"
 	"os"
+	"runtime/debug"
 	"sync"
 
 	"fortio.org/log"
@@ -16,6 +17,7 @@ var initOnce sync.Once
 // table (restricted IO unless a property's child process asks otherwise).
 func InitGrol(cfg *extensions.Config) {
 	initOnce.Do(func() {
+		debug.SetMemoryLimit(1 << 30) // like GOMEMLIMIT=1GiB: the memory guard of the interpreter needs a limit to work
 		log.SetLogLevelQuiet(log.Fatal)
 		log.SetOutput(io.Discard)
 		log.Config.ConsoleColor = false
